@@ -583,6 +583,12 @@ func (r *ChunkReader) NextChunk() (Chunk, error) {
 		}
 		for n := int32(r.currNode.arity()); r.nextChunk < n; {
 			c := r.currNode.chunk(int(r.nextChunk), r.currNodeCBias, r.currNodeDBias)
+			if !c.DRange.Empty() && !r.currNode.isLeaf(int(r.nextChunk)) {
+				// A branch node sibling is not a chunk: descend into it,
+				// starting again from the root. Here, r.seekPosition equals
+				// c.DRange[0].
+				break
+			}
 			r.nextChunk++
 			r.seekPosition = c.DRange[1]
 			if !c.DRange.Empty() {
